@@ -235,6 +235,28 @@ impl Read for ResponseReader {
     }
 }
 
+#[cfg(feature = "verif-hooks")]
+impl ResponseReader {
+    /// Which content decoder was selected (`plain`, `gzip` or `deflate`).
+    #[doc(hidden)]
+    pub fn verif_coding(&self) -> &'static str {
+        match self.inner {
+            CompressedReader::Plain(_) => "plain",
+            #[cfg(feature = "flate2")]
+            CompressedReader::Deflate(_) => "deflate",
+            #[cfg(feature = "flate2")]
+            CompressedReader::Gzip(_) => "gzip",
+        }
+    }
+
+    /// The charset `text()` / `text_reader()` will decode with.
+    #[cfg(feature = "charsets")]
+    #[doc(hidden)]
+    pub fn verif_charset(&self) -> &'static str {
+        self.charset.name()
+    }
+}
+
 #[cfg(test)]
 #[cfg(feature = "charsets")]
 mod tests {
